@@ -23,8 +23,10 @@
 package c18
 
 import (
+	"crypto/tls"
 	"errors"
 	"fmt"
+	"io"
 	"math/rand"
 	"runtime"
 	"sort"
@@ -53,6 +55,8 @@ const (
 
 type histCfg struct {
 	Mode      string // "api" (AcquireConn/ReleaseConn/CloseConn) or "do" (Do/DoTimeout)
+	Seq       bool   // do mode, one goroutine: the pool is judged after every call
+	DoPorc    bool   // do mode, no wait, one attempt per call: calls are recorded and model-checked
 	Max       int
 	Wait      time.Duration
 	G, Ops    int
@@ -64,25 +68,53 @@ type histCfg struct {
 	MaxSleep  time.Duration
 	DialMax   time.Duration
 	MaxHold   int
+	// do mode variants
+	TLS          bool
+	Stream       bool
+	ErrPct       int
+	MaxBody      int
+	ReadTimeout  time.Duration
+	WriteTimeout time.Duration
+	Attempts     int
+	DialTimeout  bool // use HostClient.DialTimeout instead of Dial
+	IdleExpiry   time.Duration
+}
+
+func (c histCfg) kind() string {
+	switch {
+	case c.Seq:
+		return "doseq"
+	case c.DoPorc:
+		return "doporc"
+	}
+	return c.Mode
 }
 
 func (c histCfg) String() string {
-	return fmt.Sprintf("mode=%s max=%d wait=%v g=%d ops=%d fail%%=%d slow%%=%d lifo=%v", c.Mode, c.Max, c.Wait, c.G, c.Ops, c.FailPct, c.SlowPct, c.LIFO)
+	return fmt.Sprintf("kind=%s max=%d wait=%v g=%d ops=%d fail%%=%d slow%%=%d lifo=%v tls=%v stream=%v faulty%%=%d maxbody=%d rt=%v wt=%v attempts=%d dialtimeout=%v",
+		c.kind(), c.Max, c.Wait, c.G, c.Ops, c.FailPct, c.SlowPct, c.LIFO, c.TLS, c.Stream, c.ErrPct, c.MaxBody, c.ReadTimeout, c.WriteTimeout, c.Attempts, c.DialTimeout)
 }
 
 func genCfg(rnd *rand.Rand) (histCfg, []dialPlan) {
 	var c histCfg
-	switch k := rnd.Intn(10); {
-	case k < 4:
-		c.Mode, c.Porc = "api", true
+	c.IdleExpiry = 5 * time.Millisecond
+	wait := func() time.Duration { return time.Duration(2+rnd.Intn(19)) * time.Millisecond }
+	switch k := rnd.Intn(20); {
 	case k < 6:
-		c.Mode = "api"
-		c.Wait = time.Duration(2+rnd.Intn(19)) * time.Millisecond
-	case k < 8:
+		c.Mode, c.Porc = "api", true
+	case k < 9:
+		c.Mode, c.Wait = "api", wait()
+	case k < 12:
 		c.Mode = "do"
+	case k < 15:
+		c.Mode, c.Wait = "do", wait()
+	case k < 17:
+		c.Mode, c.Seq = "do", true
+		if rnd.Intn(2) == 0 {
+			c.Wait = wait()
+		}
 	default:
-		c.Mode = "do"
-		c.Wait = time.Duration(2+rnd.Intn(19)) * time.Millisecond
+		c.Mode, c.DoPorc = "do", true
 	}
 	c.Max = 1 + rnd.Intn(3)
 	c.G = 4 + rnd.Intn(9)
@@ -100,6 +132,47 @@ func genCfg(rnd *rand.Rand) (histCfg, []dialPlan) {
 	if c.Max > 1 && rnd.Intn(3) == 0 {
 		c.MaxHold = c.Max
 	}
+	if c.Mode == "do" {
+		c.Stream = rnd.Intn(3) == 0
+		c.ErrPct = []int{0, 10, 25}[rnd.Intn(3)]
+		if rnd.Intn(2) == 0 {
+			c.MaxBody = 48
+		}
+		if rnd.Intn(2) == 0 {
+			c.ReadTimeout = time.Duration(6+rnd.Intn(10)) * time.Millisecond
+		}
+		c.DialTimeout = rnd.Intn(4) == 0
+	} else {
+		c.DialTimeout = rnd.Intn(5) == 0
+	}
+	if c.Seq || c.DoPorc {
+		c.Max = 1 + rnd.Intn(2)
+		c.ErrPct = []int{15, 30}[rnd.Intn(2)]
+		c.MaxBody = 48
+		c.IdleExpiry = time.Minute // no idle expiry inside the history
+		if c.DoPorc {
+			c.Attempts = 1
+			c.G = 3 + rnd.Intn(6)
+			c.Ops = 5 + rnd.Intn(8)
+		} else {
+			c.G = 1
+			c.Ops = 16 + rnd.Intn(15)
+			c.Attempts = 1 + rnd.Intn(3)
+		}
+	}
+	// TLS variant: every dialled conn is wrapped by the client; the peer may stall, garble or drop the handshake
+	if c.Mode == "do" && !c.DoPorc && rnd.Intn(6) == 0 {
+		c.TLS = true
+		c.WriteTimeout = time.Duration(40+rnd.Intn(50)) * time.Millisecond
+		if rnd.Intn(5) == 0 {
+			c.WriteTimeout = 0 // lazy handshake on first write; no stalling peers then
+		}
+		c.G = 2 + rnd.Intn(3)
+		c.Ops = 3 + rnd.Intn(3)
+		if c.Seq {
+			c.G, c.Ops = 1, 8+rnd.Intn(5)
+		}
+	}
 	// dial plan: fault / fast / slow (slow dials outlive short waits)
 	c.DialMax = 3 * time.Millisecond
 	if c.Wait > 0 {
@@ -114,6 +187,16 @@ func genCfg(rnd *rand.Rand) (histCfg, []dialPlan) {
 			p.delay = time.Duration(1 + rnd.Int63n(int64(c.DialMax)))
 		case v < c.SlowPct+35:
 			p.delay = time.Duration(1+rnd.Intn(300)) * time.Microsecond
+		}
+		if c.TLS {
+			switch v := rnd.Intn(100); {
+			case v < 12 && c.WriteTimeout > 0:
+				p.peer = peerStall
+			case v < 22:
+				p.peer = peerGarbage
+			case v < 30:
+				p.peer = peerDrop
+			}
 		}
 	}
 	return c, plans
@@ -138,12 +221,13 @@ type hist struct {
 	hc   *fasthttp.HostClient
 	ag   *agg
 	seen struct {
-		nofree, timeout, dialerr, idleReuse, newConn, closedByPeer, okResp, late atomic.Int64
+		nofree, timeout, dialerr, idleReuse, newConn, closedByPeer, okResp, late, faulty, hsFail, tooLarge, seqChecks atomic.Int64
 	}
-	opsMu   sync.Mutex
-	ops     []porcupine.Operation
-	tainted atomic.Bool // a call panicked: what it held is unknown, quiescence is not judged
-	stuck   bool        // the pool never drained (judged after the full cap)
+	opsMu      sync.Mutex
+	ops        []porcupine.Operation
+	tainted    atomic.Bool // a call panicked: what it held is unknown, quiescence is not judged
+	unmodelled atomic.Bool // a call ended in a way the recorder cannot map to model operations
+	stuck      bool        // the pool never drained (judged after the full cap)
 }
 
 // guard runs one call into fasthttp; a panic is itself a violation.
@@ -177,13 +261,16 @@ type porcJob struct {
 func TestC18(t *testing.T) {
 	r := mon.Start(t, "C18")
 	defer r.Finish()
-	r.Rule("case = one short concurrent history on a fresh HostClient behind an instrumented in-memory network: mode {exported AcquireConn/ReleaseConn/CloseConn API, Do/DoTimeout} x MaxConns 1-3 x MaxConnWaitTimeout {0, 2-20 ms} x 4-12 goroutines x 5-15 ops x dial faults {0,10,25 %} x slow dials x LIFO/FIFO x server behaviour (keep-alive, Connection: close, silent close, drop, slow) x idle expiry 5 ms, perturbed by a seeded sched.Perturber at the hc.* hook points; class = (mode, MaxConns, wait?, goroutine bucket, outcomes seen: ErrNoFreeConns, dial error, idle reuse, queued waiter, waiter dial); non-trivial = the history had contention for the pool (ErrNoFreeConns seen or a waiter was queued)")
+	r.Rule("case = one short history on a fresh HostClient behind an instrumented in-memory network: kind {exported AcquireConn/ReleaseConn/CloseConn API (no-wait ones model-checked), concurrent Do/DoTimeout, sequential Do with the pool judged after every call, concurrent one-attempt Do model-checked} x MaxConns 1-3 x MaxConnWaitTimeout {0, 2-20 ms} x 1-12 goroutines x 3-30 ops x dial faults {0,10,25 %} x slow dials x Dial/DialTimeout x LIFO/FIFO x server behaviour (keep-alive, Connection: close, silent close, drop, slow, oversized Content-Length/chunked body vs MaxResponseBodySize, malformed status line, malformed chunk, stalled body vs ReadTimeout) x buffered/streamed response bodies (read fully or abandoned early) x plaintext/TLS (IsTLS over a plain Dial, WriteTimeout; peer completes, stalls, garbles or drops the handshake) x idle expiry 5 ms, perturbed by a seeded sched.Perturber at the hc.*/rt.* hook points; class = (kind, MaxConns, wait?, goroutine bucket, tls, streaming, outcomes seen: ErrNoFreeConns, dial error, idle reuse, queued waiter, waiter dial, peer close, faulty response, handshake failure, ErrBodyTooLarge); non-trivial = contention for the pool (ErrNoFreeConns or a queued waiter) or a call that ended after a faulty response or a failed handshake")
 	r.Assume("\"all interleavings\" is replaced by the interleavings actually produced under seeded perturbation; the number of distinct hook-order signatures is reported")
 	r.Assume("live connections are counted at the fake network: +1 when Dial is entered, -1 when Dial fails or the client closes the conn; the counters are updated under one mutex together with the event, the bound is sampled inside Dial entry")
 	r.Assume("a waiter that receives the error of the dial started on its behalf is accepted (counted as waiter_got_dial_error); the property text only names a connection, ErrNoFreeConns and ErrTimeout")
 	r.Assume("bounded-liveness: a wait is broken only if AcquireConn/Do has not returned " + (hangFirst + hangSecond).String() + " after the history started (nominal history length < 1 s); returns later than deadline+" + slack.String() + " are reported as inconclusive, never as violations")
 	r.Assume("the linearizability model covers the no-wait pool only (MaxConnWaitTimeout = 0, connsCleaner not started); a failed dial is recorded as two operations (slot taken at [call, Dial entry], slot returned at [Dial return, return]); LIFO/FIFO order is not part of the property and only counted (skipped_order_mismatch) in sequential histories")
 	r.Assume("SetMaxConns changes during a history are not exercised")
+	r.Assume("open sockets are counted below TLS: the fake dialer hands out the raw conn, the client wraps it; a raw conn the client never closes stays counted")
+	r.Assume("sequential Do histories: after a call (and its body stream) is over nothing is in flight, so ConnsCount must equal the number of idle connections and of open sockets (idle expiry is switched off there: MaxIdleConnDuration 1 min), ErrNoFreeConns and queueing for a connection are refutations")
+	r.Assume("model-checked Do histories use one attempt per call; a call becomes acquire at [call, request seen on the socket] plus close-or-release at [request seen, return] as observed at the socket (closed and no later request on it = closed by this call); calls the recorder cannot map are counted (skipped_unmodelled_call) and the history is not model-checked")
 	r.Assume("key attribution only: a surplus is filed under closeconn-slot-released-before-close when all surplus sockets were inside CloseConn (hc.close.enter seen, socket not closed) and, in that history, no socket was ever closed before its CloseConn reached hc.close.afterdec; any other surplus is live-conns-exceed-maxconns")
 
 	n := r.N(1000, 16000)
@@ -255,6 +342,13 @@ func TestC18(t *testing.T) {
 		r.Require("waiter_calls", n)
 		r.Require("do_ok_responses", n)
 		r.Require("idle_reuse", n)
+		r.Require("hook:rt.stream.beforeRelease", n/20)
+		r.Require("seq_accounting_checks", n)
+		r.Require("faulty_response_endings", n/2)
+		r.Require("err_body_too_large", n/20)
+		r.Require("tls_handshake_failures", n/50)
+		r.Require("histories_tls", n/50)
+		r.Require("histories_doporc_nowait", n/20)
 	}
 }
 
@@ -281,13 +375,28 @@ func runHistory(r *mon.Run, i, rep int, ag *agg, jobs chan<- porcJob) (hung bool
 	cfg, plans := genCfg(rnd)
 	base := time.Now()
 	fn := newFakeNet(cfg.Max, base, cfg.Mode == "do", plans, uint64(rnd.Int63()))
+	fn.tls, fn.errPct, fn.maxBody = cfg.TLS, cfg.ErrPct, cfg.MaxBody
+	fn.allowStall = cfg.ReadTimeout > 0
 	h := &hist{r: r, idx: i, cfg: cfg, net: fn, ag: ag}
 	hc := &fasthttp.HostClient{
-		Addr:                "c18.test",
-		MaxConns:            cfg.Max,
-		MaxConnWaitTimeout:  cfg.Wait,
-		MaxIdleConnDuration: 5 * time.Millisecond,
-		Dial:                fn.dial,
+		Addr:                      "c18.test",
+		MaxConns:                  cfg.Max,
+		MaxConnWaitTimeout:        cfg.Wait,
+		MaxIdleConnDuration:       cfg.IdleExpiry,
+		MaxResponseBodySize:       cfg.MaxBody,
+		ReadTimeout:               cfg.ReadTimeout,
+		WriteTimeout:              cfg.WriteTimeout,
+		StreamResponseBody:        cfg.Stream,
+		MaxIdemponentCallAttempts: cfg.Attempts,
+	}
+	if cfg.DialTimeout {
+		hc.DialTimeout = fn.dialTimeout
+	} else {
+		hc.Dial = fn.dial
+	}
+	if cfg.TLS {
+		hc.IsTLS = true
+		hc.TLSConfig = &tls.Config{InsecureSkipVerify: true} // identity of the fake peer is not the subject
 	}
 	if cfg.LIFO {
 		hc.ConnPoolStrategy = fasthttp.LIFO // the zero value is FIFO
@@ -403,22 +512,35 @@ func runHistory(r *mon.Run, i, rep int, ag *agg, jobs chan<- porcJob) (hung bool
 			fmt.Sprintf("%d live connections with MaxConns=%d (%s), not explained by sockets inside CloseConn (%d such dial entries)", firstOver(over, false).Live, cfg.Max, cfg, overUn),
 			map[string]any{"config": cfg.String(), "events": over})
 	}
-	fn.vmu.Lock()
-	viols := fn.viols
-	fn.vmu.Unlock()
-	for _, v := range viols {
-		r.Violation(i, v.key, v.what, v.payload)
-	}
+	flushViolations(r, i, fn)
 
 	hits := p.Hits()
 	queued := hits["hc.queue.enqueued"] > 0
 	contention := h.seen.nofree.Load() > 0 || queued
-	class := fmt.Sprintf("%s/max%d/wait=%v/g%d/nofree=%v/dialerr=%v/reuse=%v/queued=%v/waiterdial=%v/peerclose=%v", cfg.Mode, cfg.Max, cfg.Wait > 0, cfg.G/4,
-		h.seen.nofree.Load() > 0, h.seen.dialerr.Load() > 0, h.seen.idleReuse.Load() > 0, queued, hits["hc.dialfor.dialed"] > 0, h.seen.closedByPeer.Load() > 0)
-	r.Case(class, contention)
+	if cfg.Seq && queued {
+		fn.violate("waited-with-nothing-in-flight", fmt.Sprintf("a call of a sequential history was queued for a free connection %d time(s) although nothing was in flight (%s)", hits["hc.queue.enqueued"], cfg),
+			map[string]any{"config": cfg.String(), "hook_hits": hits})
+		flushViolations(r, i, fn)
+	}
+	nontrivial := contention || h.seen.faulty.Load() > 0 || h.seen.hsFail.Load() > 0
+	class := fmt.Sprintf("%s/max%d/wait=%v/g%d/nofree=%v/dialerr=%v/reuse=%v/queued=%v/waiterdial=%v/peerclose=%v/tls=%v/stream=%v/faulty=%v/hsfail=%v/toolarge=%v", cfg.kind(), cfg.Max, cfg.Wait > 0, cfg.G/4,
+		h.seen.nofree.Load() > 0, h.seen.dialerr.Load() > 0, h.seen.idleReuse.Load() > 0, queued, hits["hc.dialfor.dialed"] > 0, h.seen.closedByPeer.Load() > 0,
+		cfg.TLS, cfg.Stream, h.seen.faulty.Load() > 0, h.seen.hsFail.Load() > 0, h.seen.tooLarge.Load() > 0)
+	r.Case(class, nontrivial)
 	r.Event("histories", 1)
-	r.Event("ms_"+cfg.Mode+map[bool]string{true: "_wait", false: "_nowait"}[cfg.Wait > 0], int(time.Since(base)/time.Millisecond))
-	r.Event("histories_"+cfg.Mode+map[bool]string{true: "_wait", false: "_nowait"}[cfg.Wait > 0], 1)
+	kindKey := cfg.kind() + map[bool]string{true: "_wait", false: "_nowait"}[cfg.Wait > 0]
+	r.Event("ms_"+kindKey, int(time.Since(base)/time.Millisecond))
+	r.Event("histories_"+kindKey, 1)
+	if cfg.TLS {
+		r.Event("histories_tls", 1)
+	}
+	if cfg.Stream {
+		r.Event("histories_streaming", 1)
+	}
+	r.Event("faulty_response_endings", int(h.seen.faulty.Load()))
+	r.Event("err_body_too_large", int(h.seen.tooLarge.Load()))
+	r.Event("tls_handshake_failures", int(h.seen.hsFail.Load()))
+	r.Event("seq_accounting_checks", int(h.seen.seqChecks.Load()))
 	r.Event("dials_ok", dOK)
 	r.Event("dials_failed", dFail)
 	r.Event("idle_reuse", int(h.seen.idleReuse.Load()+fn.reuse.Load()))
@@ -445,7 +567,7 @@ func runHistory(r *mon.Run, i, rep int, ag *agg, jobs chan<- porcJob) (hung bool
 	}
 	ag.mu.Unlock()
 
-	if cfg.Porc && !hung && !h.tainted.Load() {
+	if (cfg.Porc || cfg.DoPorc) && !hung && !h.tainted.Load() && !h.unmodelled.Load() {
 		sort.SliceStable(h.ops, func(a, b int) bool { return h.ops[a].Call < h.ops[b].Call })
 		jobs <- porcJob{idx: i, max: cfg.Max, cfg: cfg.String(), ops: h.ops}
 	}
@@ -465,6 +587,17 @@ func runHistory(r *mon.Run, i, rep int, ag *agg, jobs chan<- porcJob) (hung bool
 		}
 	}
 	return hung
+}
+
+// flushViolations hands the history's recorded violations to mon (each once).
+func flushViolations(r *mon.Run, i int, fn *fakeNet) {
+	fn.vmu.Lock()
+	viols := fn.viols
+	fn.viols = nil
+	fn.vmu.Unlock()
+	for _, v := range viols {
+		r.Violation(i, v.key, v.what, v.payload)
+	}
 }
 
 func firstOver(ev []overEvent, explained bool) overEvent {
@@ -521,11 +654,47 @@ func (h *hist) quiesce() {
 		h.net.violate("connscount-negative", fmt.Sprintf("ConnsCount() = %d at quiescence (%s)", cnt, cfg), pay)
 	case live == 0 && idle == 0:
 		h.net.violate("connscount-leak", fmt.Sprintf("ConnsCount() stays %d for %v although all dialled connections are closed and no request is pending (%s)", cnt, quiesceCap, cfg), pay)
+	case cnt == 0 && h.leakKey() != "":
+		h.net.violate(h.leakKey(), fmt.Sprintf("%d connection(s) still open %v after the last request although ConnsCount() = 0; %s (%s)", live, quiesceCap, h.leakWhat(), cfg), pay)
 	case cnt == 0:
 		h.net.violate("socket-leak", fmt.Sprintf("%d connection(s) still open %v after the last request although ConnsCount() = 0 (%s)", live, quiesceCap, cfg), pay)
+	case h.leakKey() != "":
+		h.net.violate(h.leakKey(), fmt.Sprintf("pool did not drain within %v: ConnsCount=%d idle=%d live sockets=%d; %s (%s)", quiesceCap, cnt, idle, live, h.leakWhat(), cfg), pay)
 	default:
 		h.net.violate("pool-not-quiescent", fmt.Sprintf("pool did not drain within %v: ConnsCount=%d idle=%d live sockets=%d (%s)", quiesceCap, cnt, idle, live, cfg), pay)
 	}
+}
+
+// leakKey names the narrow class of a pool that does not drain, from what the
+// fake peer knows about the sockets that are still open.
+func (h *hist) leakKey() string {
+	for _, c := range h.net.openConns() {
+		if h.cfg.TLS && !c.tlsDone.Load() {
+			return "socket-leak-after-failed-handshake"
+		}
+	}
+	for _, c := range h.net.openConns() {
+		if c.faultySent.Load() {
+			return "conn-kept-after-failed-response"
+		}
+	}
+	return ""
+}
+
+func (h *hist) leakWhat() string {
+	var parts []string
+	for _, c := range h.net.openConns() {
+		switch {
+		case h.cfg.TLS && !c.tlsDone.Load():
+			parts = append(parts, fmt.Sprintf("conn%d: TLS handshake never completed (peer kind %d), raw socket not closed", c.id, c.peer))
+		case c.faultySent.Load():
+			parts = append(parts, fmt.Sprintf("conn%d: last exchange ended with a faulty response, socket not closed", c.id))
+		default:
+			parts = append(parts, fmt.Sprintf("conn%d open", c.id))
+		}
+	}
+	sort.Strings(parts)
+	return strings.Join(parts, "; ")
 }
 
 func (h *hist) pause(rnd *rand.Rand) {
@@ -557,7 +726,7 @@ type heldConn struct {
 }
 
 func (h *hist) record(g int, in pIn, out pOut, call, ret int64) {
-	if !h.cfg.Porc {
+	if !h.cfg.Porc && !h.cfg.DoPorc {
 		return
 	}
 	h.opsMu.Lock()
@@ -709,12 +878,18 @@ func (h *hist) doWorker(g int, rnd *rand.Rand) {
 	resp := fasthttp.AcquireResponse()
 	defer fasthttp.ReleaseRequest(req)
 	defer fasthttp.ReleaseResponse(resp)
+	scheme := "http"
+	if cfg.TLS {
+		scheme = "https"
+	}
 	for k := 0; k < cfg.Ops; k++ {
 		id := int64(g*1000 + k + 1)
+		ids := strconv.FormatInt(id, 10)
 		req.Reset()
 		resp.Reset()
-		req.SetRequestURI("http://c18.test/?id=" + strconv.FormatInt(id, 10))
-		if rnd.Intn(10) == 0 {
+		req.SetRequestURI(scheme + "://c18.test/?id=" + ids)
+		reqClose := rnd.Intn(10) == 0
+		if reqClose {
 			req.SetConnectionClose()
 		}
 		var to time.Duration
@@ -726,15 +901,26 @@ func (h *hist) doWorker(g int, rnd *rand.Rand) {
 		case 2:
 			to = time.Second
 		}
-		attempt := cfg.Wait + cfg.DialMax + 5*time.Millisecond
-		bound := 5 * attempt
+		if cfg.TLS && to > 0 && to < 20*time.Millisecond {
+			to = 0 // a handshake under the race detector needs more than that
+		}
+		attempts := cfg.Attempts
+		if attempts <= 0 {
+			attempts = 5
+		}
+		attempt := cfg.Wait + cfg.DialMax + cfg.WriteTimeout + cfg.ReadTimeout + 5*time.Millisecond
+		bound := time.Duration(attempts) * attempt
 		if to > 0 && to+attempt < bound {
 			bound = to + attempt
+		}
+		if cfg.ReadTimeout == 0 && to == 0 && cfg.Stream {
+			bound += time.Second
 		}
 		if cfg.Wait > 0 {
 			h.r.Event("waiter_calls", 1)
 		}
 		t0 := time.Now()
+		call := h.net.now()
 		var err error
 		if h.guard("Do", func() {
 			if to > 0 {
@@ -745,43 +931,211 @@ func (h *hist) doWorker(g int, rnd *rand.Rand) {
 		}) {
 			continue
 		}
+		// streaming: the call is over when the body stream is closed
+		body := ""
+		bodyComplete := true
+		respClose := false
+		if err == nil {
+			respClose = resp.ConnectionClose()
+			if cfg.Stream && resp.BodyStream() != nil {
+				var rerr error
+				var b []byte
+				if rnd.Intn(5) == 0 {
+					// the caller loses interest early
+					buf := make([]byte, 4)
+					n, e := io.ReadFull(resp.BodyStream(), buf)
+					b, rerr = buf[:n], e
+					if e == io.ErrUnexpectedEOF || e == io.EOF {
+						rerr = nil
+					} else {
+						bodyComplete = false
+					}
+				} else {
+					b, rerr = io.ReadAll(resp.BodyStream())
+				}
+				if rerr != nil {
+					bodyComplete = false
+					h.r.Event("stream_read_errors", 1)
+				}
+				body = string(b)
+				if h.guard("CloseBodyStream", func() { resp.CloseBodyStream() }) {
+					continue
+				}
+			} else {
+				body = string(resp.Body())
+			}
+		}
+		ret := h.net.now()
 		if time.Since(t0) > bound+slack {
 			h.seen.late.Add(1)
 		}
+		faultyKind := h.net.faultyKind(id)
+		if faultyKind != 0 {
+			h.seen.faulty.Add(1)
+		}
 		var de *dialErr
+		dialPhase := false
 		switch {
 		case err == nil:
 			h.seen.okResp.Add(1)
-			if got := string(resp.Body()); got != strconv.FormatInt(id, 10) || resp.StatusCode() != 200 {
-				h.net.violate("response-for-other-request", fmt.Sprintf("request %d received status %d body %q", id, resp.StatusCode(), got), map[string]any{"config": cfg.String(), "request": id, "body": got})
+			okBody := body == ids || strings.HasPrefix(body, ids+"|") || (!bodyComplete && strings.HasPrefix(ids+"|", body))
+			if !okBody || resp.StatusCode() != 200 {
+				h.net.violate("response-for-other-request", fmt.Sprintf("request %d received status %d body %.40q", id, resp.StatusCode(), body), map[string]any{"config": cfg.String(), "request": id, "body": body})
 			}
-			if resp.ConnectionClose() {
+			if respClose {
 				h.seen.closedByPeer.Add(1)
 			}
 		case errors.Is(err, fasthttp.ErrNoFreeConns):
 			h.seen.nofree.Add(1)
+			if cfg.Seq {
+				h.net.violate("no-free-conns-with-nothing-in-flight", fmt.Sprintf("call %d of a sequential history returned ErrNoFreeConns although no call is in flight (%s)", k, cfg),
+					map[string]any{"config": cfg.String(), "call": k, "state": h.poolState()})
+			}
 		case err == fasthttp.ErrTimeout:
 			h.seen.timeout.Add(1)
+		case errors.Is(err, fasthttp.ErrBodyTooLarge):
+			h.seen.tooLarge.Add(1)
 		case errors.Is(err, fasthttp.ErrConnectionClosed):
 			h.seen.closedByPeer.Add(1)
 		case errors.As(err, &de):
 			h.seen.dialerr.Add(1)
+			if de.timedOut {
+				h.r.Event("dial_timeouts", 1)
+			}
+			dialPhase = true
+		case errors.Is(err, fasthttp.ErrTLSHandshakeTimeout):
+			h.seen.hsFail.Add(1)
+			h.r.Event("tls_handshake_timeouts", 1)
+			dialPhase = true
 		default:
+			if cfg.TLS && faultyKind == 0 {
+				h.seen.hsFail.Add(1) // handshake refused / garbled / dropped, or a TLS record error
+				dialPhase = true
+			}
 			h.r.Event("do_other_error", 1)
 			h.ag.mu.Lock()
-			if len(h.ag.otherErr) < 20 {
+			if len(h.ag.otherErr) < 40 {
 				h.ag.otherErr[err.Error()]++
 			}
 			h.ag.mu.Unlock()
 		}
+		if cfg.DoPorc {
+			h.recordDo(g, id, call, ret, err, reqClose || respClose, faultyKind)
+		}
+		if cfg.Seq {
+			h.seqCheck(k, id, err, faultyKind, dialPhase)
+		}
 		switch v := rnd.Intn(100); {
-		case v < 6:
+		case v < 6 && !cfg.Seq && !cfg.DoPorc:
 			h.guard("CloseIdleConnections", h.hc.CloseIdleConnections)
 		case v < 14:
-			if c := h.hc.ConnsCount(); c < 0 || c > cfg.Max {
+			call := h.net.now()
+			c := h.hc.ConnsCount()
+			h.record(g, pIn{Op: opCount}, pOut{N: c}, call, h.net.now())
+			if c < 0 || c > cfg.Max {
 				h.net.violate("connscount-out-of-range", fmt.Sprintf("ConnsCount() = %d with MaxConns=%d", c, cfg.Max), map[string]any{"config": cfg.String(), "value": c})
 			}
 		}
 		h.pause(rnd)
+	}
+}
+
+func (h *hist) poolState() map[string]any {
+	cnt, idle, waiters := fasthttp.VerifHostClientState(h.hc)
+	live, _ := h.net.liveNow()
+	return map[string]any{"conns_count": cnt, "idle": idle, "waiters": waiters, "open_sockets": live, "open": h.leakWhat()}
+}
+
+// seqCheck: sequential history, the call (and its body stream) is over, so
+// nothing is in flight: every counted connection must be idle, and every
+// open socket must be an idle connection.
+func (h *hist) seqCheck(k int, id int64, err error, faultyKind int, dialPhase bool) {
+	cfg := h.cfg
+	cnt, idle, _ := fasthttp.VerifHostClientState(h.hc)
+	live, _ := h.net.liveNow()
+	h.seen.seqChecks.Add(1)
+	if cnt == idle && live == idle {
+		return
+	}
+	ending := "a successful call"
+	switch {
+	case err != nil && faultyKind != 0:
+		ending = "a call that failed after the response started (" + actNames[faultyKind] + ": " + err.Error() + ")"
+	case err != nil && dialPhase:
+		ending = "a call that failed in the dial phase (" + err.Error() + ")"
+	case err != nil:
+		ending = "a failed call (" + err.Error() + ")"
+	}
+	pay := map[string]any{"config": cfg.String(), "call": k, "request": id, "state": h.poolState()}
+	if cnt != idle {
+		key := "connscount-idle-mismatch-with-nothing-in-flight"
+		if err != nil && faultyKind != 0 {
+			key = "slot-kept-after-failed-response"
+		} else if err != nil && dialPhase {
+			key = "slot-kept-after-failed-dial"
+		}
+		h.net.violate(key, fmt.Sprintf("after %s nothing is in flight, yet ConnsCount=%d and %d idle connection(s) (%s)", ending, cnt, idle, cfg), pay)
+	}
+	if live != idle {
+		key := "open-sockets-idle-mismatch-with-nothing-in-flight"
+		if err != nil && faultyKind != 0 {
+			key = "socket-open-after-failed-response"
+		} else if err != nil && dialPhase && cfg.TLS {
+			key = "socket-leak-after-failed-handshake"
+		} else if err != nil && dialPhase {
+			key = "socket-open-after-failed-dial"
+		}
+		h.net.violate(key, fmt.Sprintf("after %s nothing is in flight, yet %d socket(s) are open and %d connection(s) idle; %s (%s)", ending, live, idle, h.leakWhat(), cfg), pay)
+	}
+}
+
+// recordDo turns one finished Do call (one attempt) into model operations:
+// acquire at [call, request written], then close or release at [request
+// written, return], as observed at the socket (closed by this call: the socket
+// is closed and no later request was written on it). Independently of the
+// model, a call that ended with an error, or whose exchange carried
+// Connection: close, must have closed its connection.
+func (h *hist) recordDo(g int, id, call, ret int64, err error, closeAsked bool, faultyKind int) {
+	rec, ok := h.net.requestRecord(id)
+	var de *dialErr
+	switch {
+	case ok && rec.n == 1:
+		fc := rec.fc
+		if rec.first {
+			h.seen.newConn.Add(1)
+			h.record(g, pIn{Op: opAcquire}, pOut{Res: resNew, Conn: fc.id}, call, fc.dialEnter)
+		} else {
+			h.record(g, pIn{Op: opAcquire}, pOut{Res: resIdle, Conn: fc.id}, call, rec.stamp)
+		}
+		closedByCall := fc.closed.Load() != 0 && fc.reqs.Load() == rec.ord
+		if closedByCall {
+			h.record(g, pIn{Op: opClose, Conn: fc.id}, pOut{}, rec.stamp, ret)
+		} else {
+			h.record(g, pIn{Op: opRelease, Conn: fc.id}, pOut{}, rec.stamp, ret)
+		}
+		if (err != nil || closeAsked) && fc.closed.Load() == 0 {
+			key, why := "conn-kept-after-failed-call", fmt.Sprintf("the call failed (%v)", err)
+			switch {
+			case err != nil && faultyKind != 0:
+				key, why = "conn-kept-after-failed-response", fmt.Sprintf("the call failed after the response started (%s: %v)", actNames[faultyKind], err)
+			case err == nil:
+				key, why = "conn-kept-after-connection-close", "the exchange carried Connection: close"
+			}
+			h.net.violate(key, fmt.Sprintf("request %d on conn%d: %s, but the socket is still open after the call returned (%s)", id, fc.id, why, h.cfg),
+				map[string]any{"config": h.cfg.String(), "request": id, "conn": fc.id, "state": h.poolState()})
+		}
+	case ok:
+		h.unmodelled.Store(true) // more than one transmission although one attempt was configured
+		h.r.Event("skipped_unmodelled_call", 1)
+	case errors.Is(err, fasthttp.ErrNoFreeConns):
+		h.record(g, pIn{Op: opAcquire}, pOut{Res: resNoFree}, call, ret)
+	case errors.As(err, &de):
+		h.record(g, pIn{Op: opAcquire}, pOut{Res: resNew, Conn: -1}, call, de.enter)
+		h.record(g, pIn{Op: opDialFail}, pOut{}, de.exit, ret)
+	case err == fasthttp.ErrTimeout:
+		// the deadline passed before a connection was asked for: no pool operation
+	default:
+		h.unmodelled.Store(true)
+		h.r.Event("skipped_unmodelled_call", 1)
 	}
 }
